@@ -242,7 +242,7 @@ def main():
             seen.add(q)
             extra.append(q)
     for sql in list(PROGRAMS) + extra:
-        for prm in (PARAMS if tier != "quick" else ["e1", "e05"]):
+        for prm in PARAMS:
             jobs.append(dict(op="rewrite", mode="dp", tables=tabs, privacy_unit=pus["chain"], dp=PARAMS[prm], synthetic=False, sql=sql))
             keys.append((sql, prm))
     answers = driver.parallel_batch(jobs, workers=12, timeout=180.0)
